@@ -1194,11 +1194,14 @@ class Evaluator:
                     break
                 r = body(sub)
                 if not last:
-                    out.extend(r if isinstance(r, list) else [r])
+                    if kind == "dict" and isinstance(r, dict):
+                        out.extend(r.items())  # inner generator of a dict comprehension: its items join the outer result
+                    else:
+                        out.extend(r if isinstance(r, list) else [r])
                 else:
                     out.append(r)
             if ok:
-                if kind == "dict" and last:
+                if kind == "dict" and (last or all(isinstance(x, tuple) and len(x) == 2 for x in out)):
                     d = {}
                     for k, v in out:
                         if not tm.is_conc(k) or isinstance(k, (list, dict)):
@@ -1388,8 +1391,17 @@ class Evaluator:
             if isinstance(recv, T) and recv.op == "hex" and isinstance(pos[0], str) and any(c not in "0123456789abcdef" for c in pos[0]):
                 return False
             return T(meth, (recv, pos[0]), tm.BOOL)
+        if meth in ("ljust", "rjust", "center") and pos and isinstance(pos[0], int) and ty in (tm.BYTES, tm.STR):
+            # padding to a width: with a known length the result is the value and (width - len) fill characters
+            fill = pos[1] if len(pos) > 1 else (b" " if ty == tm.BYTES else " ")
+            n = tm.blen(recv) if ty == tm.BYTES else (len(recv) if isinstance(recv, str) else None)
+            if isinstance(n, int) and tm.is_conc(fill) and meth != "center":
+                padn = max(0, pos[0] - n)
+                parts = [recv, fill * padn] if meth == "ljust" else [fill * padn, recv]
+                return tm.cat(parts) if ty == tm.BYTES else tm.scat(parts)
         if meth in ("lower", "upper", "strip", "isupper", "islower", "lstrip", "rstrip", "split", "splitlines", "zfill",
-                    "index", "count", "find", "isdigit", "title", "replace", "partition", "rsplit"):
+                    "index", "count", "find", "isdigit", "title", "replace", "partition", "rsplit", "rpartition", "ljust", "rjust",
+                    "removeprefix", "removesuffix", "isalnum", "isalpha", "isascii", "rfind", "rindex", "casefold", "swapcase"):
             if tm.is_conc(recv) and all(tm.is_conc(p) for p in pos) and not isinstance(recv, (dict,)):
                 try:
                     return getattr(recv, meth)(*pos)
